@@ -40,6 +40,7 @@ type c18Args struct {
 	Depth  int
 	Sched  []c05Scenario `json:",omitempty"`
 	Stall  bool `json:",omitempty"` // the stalled-subscriber cases
+	Root   []Action `json:",omitempty"` // history replayed before the search starts (subscriber turnover)
 }
 
 func c18Alphabet() []Action {
@@ -153,6 +154,16 @@ func (c18Check) Units(tier string, seed int64) []Unit {
 	{
 		b, _ := json.Marshal(c18Args{Stall: true})
 		us = append(us, Unit{Name: "stalled-subscriber", Args: b})
+	}
+	// subscriber turnover: a channel / pattern that has already delivered a message loses its subscriber; every
+	// continuation (another connection taking its place, the same one returning, further publishes) is explored from there
+	for i, root := range [][]Action{
+		{cmdOn(0, "SUBSCRIBE", "c1"), cmdOn(2, "PUBLISH", "c1", "m0"), cmdOn(0, "UNSUBSCRIBE", "c1")},
+		{cmdOn(0, "PSUBSCRIBE", "c*"), cmdOn(2, "PUBLISH", "c1", "m0"), cmdOn(0, "PUNSUBSCRIBE", "c*")},
+		{cmdOn(0, "SUBSCRIBE", "c1", "c2"), cmdOn(1, "SUBSCRIBE", "c1", "c2"), emb("PUBLISH", "c2", "m0"), cmdOn(1, "UNSUBSCRIBE")},
+	} {
+		b, _ := json.Marshal(c18Args{Shard: 0, Shards: 1, Depth: depth - 1, Root: root})
+		us = append(us, Unit{Name: fmt.Sprintf("turnover-%d-depth%d", i, depth-1), Args: b})
 	}
 	bound := 2
 	if tier == "thorough" {
@@ -465,8 +476,8 @@ func (c18Check) Run(u Unit, w *Worker) UnitResult {
 		}
 		return fs
 	}
-	runSeq(spec, nil, func(i int) bool { return i%a.Shards == a.Shard }, w, &res)
-	res.Samples = append(res.Samples, map[string]any{"first_action": alpha[a.Shard%len(alpha)].String(), "depth": a.Depth, "alphabet": len(alpha)})
+	runSeq(spec, a.Root, func(i int) bool { return i%a.Shards == a.Shard }, w, &res)
+	res.Samples = append(res.Samples, map[string]any{"first_action": alpha[a.Shard%len(alpha)].String(), "depth": a.Depth, "alphabet": len(alpha), "root": pathString(a.Root)})
 	return res
 }
 
